@@ -655,10 +655,22 @@ class C11(vlib.Spec):
         need = [i for i, l in enumerate(lines) if l.split(" ", 1)[0] in ZOPS]
         toks = self.go(["tok " + lines[i] for i in need])
         out = list(lines)
+        drop = set()
         for i, t in zip(need, toks):
-            if t and t != "-" and not t.startswith(("PANIC", "CRASH", "bad-op")):
+            if not t or t.startswith(("PANIC", "CRASH", "bad-op", "ALLOC")):
+                # the pre-pass itself was disturbed (e.g. the per-case time limit on an overloaded machine):
+                # retry alone; a case whose parameter values cannot be obtained is not emitted at all
+                for _ in range(2):
+                    t = self.go(["tok " + lines[i]])[0]
+                    if t and not t.startswith(("PANIC", "CRASH", "bad-op", "ALLOC")):
+                        break
+                else:
+                    drop.add(i)
+                    self.sub["dropped:token-prepass-failed"] += 1
+                    continue
+            if t != "-":
                 out[i] = lines[i] + " ; " + t
-        return out
+        return [l for i, l in enumerate(out) if i not in drop]
 
     def cases(self, rng, n):
         nrt = n // 2
